@@ -251,9 +251,10 @@ class Codec:
                 cheksum_base = self.SOH.join(msg[:-1])
                 checksum = (sum([ord(i) for i in cheksum_base]) + 1) % 256
 
-                try:
+                # CheckSum is always three digits
+                if len(value) == 3 and value.isascii() and value.isdigit():
                     checksum_value = int(value)
-                except ValueError:
+                else:
                     checksum_value = -1
                 if checksum != checksum_value:
                     logging.warning(
